@@ -397,7 +397,7 @@ def install():
 # ---- workload ----------------------------------------------------------------------------
 PARAMS = {
     "quick": {"random_sets": 2, "offsets": 3, "perm_cap": 24, "perm_sample": 5, "subst": 170, "exhaustive": False, "wrong_chk": 3},
-    "thorough": {"random_sets": 26, "offsets": 5, "perm_cap": 24, "perm_sample": 12, "subst": 1800, "exhaustive": True, "wrong_chk": 10},
+    "thorough": {"random_sets": 44, "offsets": 5, "perm_cap": 24, "perm_sample": 12, "subst": 3600, "exhaustive": True, "wrong_chk": 10},
 }
 PATHS = ["m/48h/0h/0h/2h", "m/48'/1'/0'/2'", "m/48H/1H/0H/2H", "m", "m/45h", "m/48h/1h/0h/2h/2046266013/1945465733/1801020214/1402692941", "m/0/2147483647h/1"]
 ACCOUNTS = [0, 1, 2, 5, 2**31 - 2, 2**31 - 1]
